@@ -331,8 +331,12 @@ def ruleDateDOW(ts: datetime, date: Time, dow: Time) -> Time:
 @rule(predicate("isDOM"))
 def ruleLatentDOM(ts: datetime, dom: Time) -> Time:
     dm = ts + relativedelta(day=dom.day)
-    if dm <= ts:
-        dm += relativedelta(months=1)
+    months = 0
+    # relativedelta clips the day to the length of the month (31 -> 30 in
+    # April): move on until a month really has that day
+    while dm <= ts or dm.day != dom.day:
+        months += 1
+        dm = ts + relativedelta(months=months, day=dom.day)
     return Time(year=dm.year, month=dm.month, day=dm.day)
 
 
@@ -345,10 +349,16 @@ def ruleLatentDOW(ts: datetime, dow: Time) -> Time:
 
 
 @rule(predicate("isDOY"))
-def ruleLatentDOY(ts: datetime, doy: Time) -> Time:
+def ruleLatentDOY(ts: datetime, doy: Time) -> Optional[Time]:
     dm = ts + relativedelta(month=doy.month, day=doy.day)
-    if dm < ts:
-        dm += relativedelta(years=1)
+    years = 0
+    # relativedelta clips 29.02. to 28.02. in a non-leap year: move on to the
+    # next year that has that day (impossible dates such as 31.04. never do)
+    while (dm < ts or dm.day != doy.day) and years < 8:
+        years += 1
+        dm = ts + relativedelta(years=years, month=doy.month, day=doy.day)
+    if dm.day != doy.day:
+        return None
     return Time(year=dm.year, month=dm.month, day=dm.day)
 
 
